@@ -361,6 +361,11 @@ func runC12(c *Ctx) {
 	for _, a := range s.WaitTasks(25*time.Minute, tasks...) {
 		s.Violate("C12|stuck|"+mode, "%s did not finish", a.Name)
 	}
+	for _, e := range s.LibEvents() {
+		if strings.Contains(e, "recursive read lock") {
+			s.Violate("C12|rlock-recursion|"+mode, "%s", e)
+		}
+	}
 	if lb := s.LockBlocked(); len(lb) > 0 {
 		s.Violate("C12|deadlock|"+mode, "tasks blocked on registry locks at the end: %v", lb)
 	}
